@@ -129,13 +129,19 @@ def gen_program(rng, tier):
         o, w, di = gen_transformer(rng, w, depth - 1, names if i == 0 else None)
         steps.append(("t%d" % i, o))
         desc.append(di)
-    final = [None, "logreg", "linreg", "tree"][rng.randint(4)]
+    final = [None, "logreg", "linreg", "tree", "kmeans", "lda"][rng.randint(6)]
     if final == "logreg":
         steps.append(("final", LogisticRegression(max_iter=200)))
     elif final == "linreg":
         steps.append(("final", LinearRegression()))
     elif final == "tree":
         steps.append(("final", DecisionTreeClassifier(max_depth=2, random_state=0)))
+    elif final == "kmeans":      # a final step that has both transform and predict
+        from sklearn.cluster import KMeans
+        steps.append(("final", KMeans(n_clusters=2, n_init=1, random_state=0)))
+    elif final == "lda":
+        from sklearn.discriminant_analysis import LinearDiscriminantAnalysis
+        steps.append(("final", LinearDiscriminantAnalysis()))
     desc.append(str(final))
     pipe = Pipeline(steps)
     data = pandas.DataFrame(X, columns=names) if schema != "array" else X
